@@ -41,6 +41,8 @@ pub struct Plan {
     pub fail_at: Option<usize>,
     /// the read at which a byte source uses a container one byte too wide (a source error, like `fail_at`)
     pub wide: bool,
+    /// with `wide`: the faulty read is RAGGED (last sample cut) instead of too wide
+    pub ragged: bool,
     pub bad_blocks: Vec<usize>,
     pub bytes_mode: bool,
     pub intensity: u32,
@@ -58,7 +60,9 @@ fn make_source(pcm: &Pcm, bs: usize, plan: &Plan) -> (TestSource, Vec<bool>) {
         }
     }
     let mut s = TestSource::new(&p, (plan.bytes_mode && plan.bad_blocks.is_empty()) || plan.wide, true);
-    if plan.wide {
+    if plan.wide && plan.ragged {
+        s.ragged_at = plan.fail_at;
+    } else if plan.wide {
         s.wide_at = plan.fail_at;
     } else {
         s.fail_at = plan.fail_at;
@@ -217,12 +221,18 @@ pub fn generate(seed: u64, cases: usize, out: &mut dyn FnMut(String)) {
         let mut c = Cfg::default();
         c.block_size = 64;
         let p = gen::pcm(&mut rng, "sine_noise", 2, 16, 44100, 300);
-        let base = Plan { w: 2, env: None, fail_at: None, wide: false, bad_blocks: vec![], bytes_mode: false, intensity: 30 };
+        let base = Plan { w: 2, env: None, fail_at: None, wide: false, ragged: false, bad_blocks: vec![], bytes_mode: false, intensity: 30 };
         out(run_case("corpus-f8a-read-error", &c, &p, &Plan { fail_at: Some(2), ..base.clone() }, seed));
         out(run_case("corpus-f8b-bad-sample", &c, &p, &Plan { bad_blocks: vec![1], ..base.clone() }, seed));
         // more invalid blocks than there are frame buffers (2W): every buffer must come back
         out(run_case("corpus-many-bad-blocks", &c, &p, &Plan { w: 1, bad_blocks: vec![0, 1, 2, 3, 4], ..base.clone() }, seed));
         out(run_case("corpus-f8c-env-zero", &c, &p, &Plan { w: 0, env: Some("0".into()), ..base.clone() }, seed));
+        // a byte source that delivers a ragged block (cut in the middle of an inter-channel sample): the frame buffer rejects
+        // it before the MD5 context sees anything, in both modes
+        for (name, ch, k) in [("2ch-k1", 2usize, 1usize), ("3ch-k0", 3, 0), ("1ch-k2", 1, 2)] {
+            let pr = gen::pcm(&mut rng, "sine_noise", ch, 16, 44100, 300);
+            out(run_case(&format!("corpus-ragged-{name}"), &c, &pr, &Plan { fail_at: Some(k), wide: true, ragged: true, bytes_mode: true, ..base.clone() }, seed));
+        }
         // block sizes at both ends of the supported range (32..=32767), incl. sizes that are not a multiple of a
         // SIMD vector: the two modes must accept exactly the same sizes
         for bs in [32767usize, 32766, 32753, 32752, 33, 32] {
@@ -303,7 +313,8 @@ pub fn generate(seed: u64, cases: usize, out: &mut dyn FnMut(String)) {
         // a read "failure" is either an error returned by the source itself or a byte fill with the wrong
         // container width, which the fill must reject (only meaningful below 25 bits and without bad blocks)
         let wide = fail_at.is_some() && bad_blocks.is_empty() && pcm.bps <= 24 && fail_at.unwrap() < nblocks && rng.chance(35);
-        let plan = Plan { w, env, fail_at, wide, bad_blocks, bytes_mode: rng.chance(30), intensity: *rng.pick(&[0u32, 10, 40, 80]) };
+        let ragged = wide && (pcm.channels >= 2 || pcm.bps > 8) && rng.chance(50);
+        let plan = Plan { w, env, fail_at, wide, ragged, bad_blocks, bytes_mode: rng.chance(30), intensity: *rng.pick(&[0u32, 10, 40, 80]) };
         out(run_case(&format!("p{i}"), &cfg, &pcm, &plan, seed.wrapping_add(i as u64 * 7919)));
         i += 1;
     }
